@@ -10,7 +10,8 @@ THEOREM_NAMES = ["parse_print_tokens", "parse_print_tokens_one", "vanilla_rows_o
                  "syms_ok", "int_str_roundtrip", "operand_roundtrip", "parse_print", "vanilla_parse_print",
                  "nv_parse_print", "reids_parse_print", "text_binary_text", "nv_text_binary_text",
                  "reids_text_binary_text", "vanilla_text_binary_text_partial",
-                 "vanilla_text_binary_text_counterexample"]
+                 "vanilla_text_binary_text_counterexample", "tokeniser_bridge", "src_syms_ok",
+                 "printed_line_tokenises", "source_line_text_roundtrip"]
 THEOREMS = [(M_, "NQ.C17." + n) for n in THEOREM_NAMES]
 TRANSLATORS = ["instr_table", "asm_tables"]
 LEVEL_TEXT = ('Lean theorems at CHARACTER level: parse_print — for every flavour table and every list of instructions '
@@ -19,7 +20,9 @@ LEVEL_TEXT = ('Lean theorems at CHARACTER level: parse_print — for every flavo
               'index and slice parsing) and assembles (constant replacement, name map, from_operands) back to '
               'exactly these instructions; includes int(str(v)) = v for every integer by induction on the digits. '
               'Instantiated without side condition for vanilla, NV and REIDS (vanilla/nv/reids_parse_print). '
-              'text_binary_text: with C01, text -> binary -> text is stable for whole subroutines (NV, REIDS '
+              'source_line_text_roundtrip / tokeniser_bridge: single SOURCE lines with every proto operand form of C03 '
+              '(label operands, integer indices) are read back by the same lexer, and the model of group_by_word '
+              '(C03) cuts the same words as parseLine on bracket-free lines. text_binary_text: with C01, text -> binary -> text is stable for whole subroutines (NV, REIDS '
               'unconditional; vanilla outside the recorded opcode clash, counter-example proved). Tie: '
               'generated obligations rowTextOk (mnemonic -> class via GenericInstr + flavour name map, every '
               'immediate position in _REPLACE_CONSTANTS_EXCEPTION) and symsOk (symbols.py, bank letters) '
